@@ -113,3 +113,10 @@ CLAIMED["C14"] = (
     _TRUST + " 7-bit messages only; keys whose truth is ambiguous under RFC 3501 (date boundaries across zones, BODY over MIME headers, keyword case) are not asserted.",
     "DESIGN.md section 4 C14",
 )
+CLAIMED["C16"] = (
+    "exploration",
+    "property-based testing + bounded enumeration: Hypothesis-generated raw RFC 5322/MIME messages (built byte by byte) plus the repository's fixture corpus, stored by APPEND, COPY and direct MH delivery; oracle = equations between data items (size, HEADER+TEXT, RFC822*, partial slices, repeat), CRLF termination, round-trip of header fields and decoded body for APPEND, byte identity for COPY, part bodies against an independent boundary splitter",
+    "Every relation the property states is evaluated on every stored message for all sections the structure admits and generated partial ranges; messages cover rich header sets, encodings, nested multiparts, message/rfc822 at top level and nested, empty bodies, missing final newline, LF/CRLF files. Five open known findings (stdlib re-folding of long header lines; bare LF from two stdlib fallback paths) whose fixes would change recorded-output unit tests.",
+    _TRUST + " The independent splitter/field comparer in vf/props/c16.py; encoded words that split a character and MIME parameter quoting are not judged.",
+    "DESIGN.md section 4 C16",
+)
